@@ -276,15 +276,42 @@ func (c13) Exec(ctx *core.Ctx, cs *core.Case) {
 		}
 		return
 	}
+	// alt: a value that must BEHAVE like the derived one although it was obtained differently - for a
+	// clone an independent original (built the same way, never cloned), for the result of a
+	// resolution a fresh parse of its serialization.  State that a copy forgets to carry over
+	// (a cached flag, a derived field) only shows in what later operations do.
+	var alt *url.Url
+	if cs.Check == "clone" {
+		if o, _, ok := build(); ok {
+			alt = o
+		}
+	} else if f, err, p := parseImpl(ctx, parser, der.Href(false), "", false, false); p == nil && err == nil && f != nil {
+		if takeFull(f, names).noErrs() == takeFull(der, names).noErrs() {
+			alt = f
+		}
+	}
 	run := func(target, twin, other *url.Url, ops []core.Op, what string) bool {
 		before := takeFull(other, names)
 		for i, op := range ops {
 			var p1, p2 *core.Panic
 			p1 = ctx.Call(budget+opBytes(op), func() { applyOp(target, op) })
 			p2 = ctx.Call(budget+opBytes(op), func() { applyOp(twin, op) })
+			if target == der && alt != nil {
+				if p3 := ctx.Call(budget+opBytes(op), func() { applyOp(alt, op) }); p3 != nil {
+					alt = nil
+				}
+			}
 			if p1 != nil || p2 != nil {
 				ctx.Count("op_panics(C02)")
 				return false
+			}
+			if target == der && alt != nil {
+				ctx.Count("behaviour_comparisons")
+				if a, b := takeFull(target, names).noErrs(), takeFull(alt, names).noErrs(); a != b {
+					ctx.Violate("a derived value does not behave like an equal value obtained directly ("+what+")", b.s.Href, a.s.Href,
+						fmt.Sprintf("step %d %s: %s", i, clipS(op.String(), 120), diffFull(b, a)))
+					return false
+				}
 			}
 			ctx.Count("ops")
 			where := fmt.Sprintf("%s, step %d %s", what, i, clipS(op.String(), 120))
